@@ -1,7 +1,13 @@
 (* C09 -- the comparison used at every shape-reading site (model file, no proofs).
    Gen/ShapeUsers.v `comparisons` is regenerated from the source on every run (harness/c09_users.py, Python ast,
    fail-closed): for every module-level function / class of the anchored files that reads shape information, every
-   comparison of its body in source order.  This file holds
+   comparison of its body in source order.  The texts are read off the NORMAL FORM of the unit (harness/c09_norm.py, each step
+   with its soundness argument): parameters p0, p1, .. and locals v0, v1, .. by first binding position (nested functions:
+   p<i>_<depth>), single-assignment single-use temporaries substituted, annotations / docstrings / comments gone, `not a == b`
+   written NotEq, operands of == / != / is / is not sorted, isinstance against a tuple or an `or` of isinstance calls written
+   once with the types sorted -- so a renamed local, an introduced or removed temporary, `b == a`, a guard clause turned into
+   a nested if, an expression moved into (or back out of) a one-line module-level helper that is not itself a unit do not change
+   them.  `expected` was regenerated once from the unchanged source (/repo 0d32d2b).  This file holds
      - `expected`: the list the models were written against (a changed, added or removed comparison in any of these
        units -- e.g. same_dim -> ==, a dropped isinstance guard, < -> <= -- makes `comparisons_okb` false even when no
        generator reaches the site), and
@@ -21,316 +27,322 @@ Inductive cmp_kind := KSameDim | KSameShape | KKnownEqual | KStaticGuard | KIntG
                     | KPyEqDimsGuarded | KPyEqDimsAgainstInts | KPyEqDimsMergeOnly | KNameEqGuarded | KRank | KMerge.
 
 Definition expected : list (string * list string) := [
-  ("_constant_folding.py:_process_constant_node", ["NotEq: len(node.attributes) ; 1";
-      "NotEq: len(node.outputs) ; 1";
-      "In: attr_name ; {'value_float', 'value_floats'}";
-      "In: attr_name ; {'value_int', 'value_ints'}";
-      "In: attr_name ; {'value_string', 'value_strings'}";
-      "Eq: attr_name ; 'value'"]);
-  ("_constant_folding.py:OptimizerState", ["Eq: const_value.ndim ; 1";
-      "isinstance: sym_value ; ir.Shape"]);
-  ("_constant_folding.py:_same_shape", ["isinstance: dim ; ir.SymbolicDim";
-      "Eq: shape1.dims ; shape2.dims"]);
-  ("_constant_folding.py:add", ["NotEq: len(shape_value) ; 1";
-      "isinstance: dim ; int";
-      "isinstance: dim0 ; int";
-      "isinstance: dim1 ; int";
-      "isinstance: dim0 ; int";
-      "Lt: dim0 ; 0";
-      "isinstance: dim1 ; int";
-      "Lt: dim1 ; 0"]);
-  ("_constant_folding.py:abs", ["isinstance: d ; int";
-      "Lt: d ; 0"]);
-  ("_constant_folding.py:gather", ["NotEq: axis ; 0";
-      "NotEq: indices_numpy_value.ndim ; 1";
-      "isinstance: d ; int"]);
-  ("_constant_folding.py:_propagate_shape_value", []);
-  ("_constant_folding.py:reshape", ["LtE: len(shape_value) ; 1";
-      "call _same_shape: input_shape ; shape_value"]);
-  ("_constant_folding.py:shape", ["isinstance: d ; int"]);
-  ("_constant_folding.py:size", ["isinstance: d ; int"]);
-  ("_constant_folding.py:identity", ["call _merge_shapes: input.shape ; output.shape"]);
-  ("_constant_folding.py:sequence_construct", []);
-  ("_constant_folding.py:concat", ["Eq: len(inputs) ; 1";
-      "Eq: dim_size ; 0";
-      "NotEq: len(shape) ; len(ref_shape)";
-      "LtE,Lt: -rank ; axis ; rank";
-      "Eq: i ; axis % rank";
-      "isinstance: dim ; int";
-      "isinstance: ref_dim ; int";
-      "NotEq: dim ; ref_dim";
-      "NotEq: dim.value ; ref_dim.value";
-      "In: False ; zero_size";
-      "Eq: i ; ref_index";
-      "NotEq: len(new_inputs) ; len(inputs)";
-      "Eq: len(new_inputs) ; 1";
-      "NotEq: axis ; 0"]);
-  ("_constant_folding.py:expand", ["NotEq: len(node.inputs) ; 2";
-      "call _same_shape: input_shape ; expanded_sym_shape";
-      "NotEq: expanded_shape.ndim ; 1";
-      "Eq: input_shape.dims ; tuple(expanded_shape.tolist())"]);
-  ("_constant_folding.py:concat_from_sequence", ["Eq: new_axis ; 0";
-      "Eq: new_axis ; 1"]);
-  ("_constant_folding.py:split_to_sequence", ["Eq: len(node.inputs) ; 1";
-      "Lt: axis ; 0";
-      "Lt: axis ; 0";
-      "GtE: axis ; rank";
-      "call is_static:  @split.shape";
-      "Eq: len(split_shape) ; 1";
-      "isinstance: split_dimension_size ; int";
-      "Eq: split_value.ndim ; 1";
-      "Eq: split_value.ndim ; 0";
-      "isinstance: split_dimension_size ; int";
-      "LtE: split_size ; 0";
-      "NotEq: split_dimension_size % split_size ; 0";
-      "Eq: keepdims ; 0"]);
-  ("_constant_folding.py:sequence_at", ["NotEq: position_val.size ; 1"]);
-  ("_constant_folding.py:_merge_shapes", ["Eq: dim1 ; dim2";
-      "isinstance: dim1 ; ir.SymbolicDim";
-      "isinstance: dim2 ; ir.SymbolicDim";
-      "NotEq: len(preferred_shape) ; len(other_shape)"]);
-  ("_constant_folding.py:FoldConstantsPass", ["In: output.name ; output_types";
-      "call _merge_shapes: output.shape ; inferred_shape";
-      "In: output_array.dtype.kind ; ('O', 'S', 'U')";
-      "Gt: output_array.size ; self.output_size_limit";
-      "Eq: len(input_val.uses()) ; 1";
-      "Gt: increased_size ; 0";
-      "NotIn: node.domain ; self._opset_imports";
-      "Is: should_fold ; False";
-      "Gt: tensor.size ; self.input_size_limit";
-      "Eq: len(node.inputs) ; len(large_inputs)";
-      "In: (node.domain, node.op_type) ; _DEFAULT_ALWAYS_FOLD_OPS";
-      "Eq: len(input.consumers()) ; 1";
-      "Eq: av.type ; ir.AttributeType.TENSOR";
-      "Eq: len(node.outputs) ; 1";
-      "Eq: attr.type ; ir.AttributeType.GRAPH";
-      "Eq: attr.type ; ir.AttributeType.GRAPHS"]);
-  ("_basic_rules.py:SqueezeReshape", ["call has_rank: x ; 1 @ir_utils"]);
-  ("_basic_rules.py:ExpandIdentity", ["NotEq: x_shape.dims ; tuple(shape.const_value.numpy().tolist())"]);
-  ("_basic_rules.py:ReshapeReshape", ["isinstance: dim ; int";
-      "Gt: dim ; 0";
-      "Eq: self._allowzero ; 1";
-      "Eq: self._new_shape ; 0";
-      "Eq: self._new_shape ; 0";
-      "Lt: self._new_shape ; 0";
-      "Gt: np.count_nonzero(self._new_shape == 0) ; 1";
-      "Eq: self._new_shape ; 0";
-      "Eq: self._new_shape ; 0"]);
-  ("_basic_rules.py:SlicesSplit", ["NotEq: axes0.const_value.numpy().tolist() ; axes1.const_value.numpy().tolist()";
-      "NotEq: len(axes) ; 1";
-      "NotEq: axes[0] ; -1";
-      "NotEq: axes[0] ; rank - 1";
-      "NotEq: begin0.const_value.numpy().tolist() ; [0]";
-      "NotEq: e0[0] ; b1[0]";
-      "isinstance: last_dim ; int";
-      "NotEq: last_dim ; e1[0]";
-      "NotEq: last_dim // 2 ; b1[0]";
-      "LtE: last_dim ; 0";
-      "NotEq: last_dim % 2 ; 0";
-      "Lt: context.graph_or_function.opset_imports.get('', 0) ; 18"]);
-  ("_basic_rules.py:Flatten2Reshape", ["Lt: axis ; 0";
-      "Eq: axis ; 0";
-      "Eq: axis ; 1";
-      "Eq: axis ; input_rank";
-      "isinstance: dim ; int";
-      "isinstance: dim ; int";
-      "isinstance: dim ; int";
-      "Gt: np.count_nonzero(self._new_shape == -1) ; 1";
-      "Eq: self._new_shape ; -1";
-      "isinstance: dim ; int";
-      "Eq: dim ; 0"]);
-  ("_collapse_slices.py:_check_if_redundant_slice", ["NotEq: starts_const.numpy().size ; 1";
-      "NotEq: ends_const.numpy().size ; 1";
-      "NotEq: axes_const.numpy().size ; 1";
-      "NotEq: steps_const.numpy().size ; 1";
-      "NotEq: steps_const.numpy().item() ; 1";
-      "NotEq: starts_const.numpy().item() ; 0";
-      "Eq: ends_const.numpy().item() ; _INT64_MAX";
-      "call is_dynamic: axes_const.numpy().item() @data.shape";
-      "Lt: ends_const.numpy().item() ; data.shape[axes_const.numpy().item()]"]);
-  ("_collapse_slices.py:_same_shape", ["Eq: s ; 1";
-      "call same_shape: data.shape ; slice_output.shape @_ir_utils"]);
-  ("_materialize_reshape_shape.py:MaterializeReshapeShape", ["isinstance: d ; int";
-      "Eq: sym_count ; 1";
-      "isinstance: d ; int";
-      "Eq: d ; 0";
-      "LtE: sym_count ; 1";
-      "isinstance: d ; int"]);
-  ("_remove_expand_before_binary_op.py:_known_equal", ["isinstance: d1 ; ir.SymbolicDim";
-      "isinstance: d2 ; ir.SymbolicDim";
-      "Eq: d1 ; d2"]);
-  ("_remove_expand_before_binary_op.py:_compute_broadcast_shape", ["GtE: idx1 ; 0";
-      "GtE: idx2 ; 0"]);
-  ("_remove_expand_before_binary_op.py:_check_dims_sufficient", ["Gt: e_rank ; max(x_rank, y_rank)";
-      "isinstance: e_d ; int";
-      "Eq: e_d ; 1";
-      "GtE: x_idx ; 0";
-      "call _known_equal: x_d ; e_d";
-      "GtE: y_idx ; 0";
-      "call _known_equal: y_d ; e_d"]);
-  ("_remove_expand_before_binary_op.py:_check_expand_removable", ["Gt: expand_rank ; max(x_rank, y_rank)";
-      "Eq: e_d ; 1";
-      "GtE: x_idx ; 0";
-      "isinstance: x_d ; int";
-      "Eq: x_d ; e_d";
-      "GtE: y_idx ; 0";
-      "isinstance: y_d ; int";
-      "Eq: y_d ; e_d";
-      "Eq: len(computed) ; op_output_shape.rank()";
-      "call _known_equal: c ; a"]);
-  ("_redundant_scatter_nd.py:ScatterAllDynamic", ["isinstance: axis_value ; int";
-      "call same_dim: updated_dim_value ; actual_dim_value @_ir_utils"]);
-  ("_redundant_scatter_nd.py:ScatterAllStatic", ["NotEq: context.root.attributes.get_string('reduction', 'none') ; 'none'";
-      "Eq: len(data.shape) ; 0";
-      "isinstance: data.shape[0] ; int";
-      "call same_shape: data.shape ; updates.shape @_ir_utils";
-      "NotEq: actual_indices ; expected_indices"]);
-  ("_broadcast_to_matmul.py:check_if_not_need_reshape", ["NotEq: len(shape_c_tensor.shape) ; 1";
-      "isinstance: dim ; ir.SymbolicDim";
-      "isinstance: dim ; ir.SymbolicDim";
-      "Eq: a_rank ; 0";
-      "Eq: b_rank ; 0";
-      "Lt: a_rank ; 2";
-      "Lt: b_rank ; 2";
-      "NotEq: input_a_shape[-1] ; input_b_shape[-2]";
-      "Lt: b_rank ; 2";
-      "NotEq: input_b_shape[-1] ; input_a_shape[-1]";
-      "Eq: idx ; 0";
-      "NotEq: dim_from_a ; dim_from_b";
-      "NotIn: dim_from_a ; {1, dim_from_b}";
-      "Gt: idx ; 0";
-      "Gt: a_rank ; b_rank";
-      "Eq: b_rank ; 2";
-      "Eq: input_b_shape[-1] ; 1";
-      "Eq: a_rank ; 2";
-      "Eq: input_a_shape[0] ; 1";
-      "NotEq: shape_c ; broadcast_matmul_output_shape"]);
-  ("_ir_utils.py:has_rank", ["Eq: shape.rank() ; rank"]);
-  ("_ir_utils.py:broadcast_keeps_rank", ["LtE: rank ; 1";
-      "LtE: rank ; reference.shape.rank()"]);
-  ("_ir_utils.py:get_dim", ["Lt: dim ; 0";
-      "Lt: dim ; 0";
-      "GtE: dim ; shape.rank()"]);
-  ("_ir_utils.py:same_shape", ["call has_unknown_dim:  @shape1";
-      "call has_unknown_dim:  @shape2";
-      "Eq: shape1 ; shape2"]);
-  ("_ir_utils.py:same_dim", ["IsNot: type(dim1) ; type(dim2)";
-      "isinstance: dim1 ; int";
-      "isinstance: dim2 ; int";
-      "Eq: dim1 ; dim2";
-      "isinstance: dim1 ; ir.SymbolicDim";
-      "isinstance: dim2 ; ir.SymbolicDim";
-      "Eq: dim1.value ; dim2.value"])
+  ("_constant_folding.py:_process_constant_node"%string, ["NotEq: 'Constant' ; p0.op_type"%string;
+      "NotEq: 1 ; len(p0.attributes)"%string;
+      "NotEq: 1 ; len(p0.outputs)"%string;
+      "In: v0 ; {'value_float', 'value_floats'}"%string;
+      "In: v0 ; {'value_int', 'value_ints'}"%string;
+      "In: v0 ; {'value_string', 'value_strings'}"%string;
+      "Eq: 'value' ; v0"%string]);
+  ("_constant_folding.py:OptimizerState"%string, ["Eq: 1 ; v0.ndim"%string;
+      "isinstance: v1 ; ir.Shape"%string]);
+  ("_constant_folding.py:_same_shape"%string, ["isinstance: v0 ; ir.SymbolicDim"%string;
+      "Eq: p0.dims ; p1.dims"%string]);
+  ("_constant_folding.py:add"%string, ["NotEq: 1 ; len(v1_1)"%string;
+      "isinstance: v2_1 ; int"%string;
+      "isinstance: v0 ; int"%string;
+      "isinstance: v1 ; int"%string;
+      "isinstance: v0 ; int"%string;
+      "Lt: v0 ; 0"%string;
+      "isinstance: v1 ; int"%string;
+      "Lt: v1 ; 0"%string]);
+  ("_constant_folding.py:abs"%string, ["isinstance: v2 ; int"%string;
+      "Lt: v2 ; 0"%string]);
+  ("_constant_folding.py:gather"%string, ["NotEq: 0 ; _get_int_attribute(p0, 'axis', None)"%string;
+      "NotEq: 1 ; v3.ndim"%string;
+      "isinstance: v7 ; int"%string]);
+  ("_constant_folding.py:_propagate_shape_value"%string, []);
+  ("_constant_folding.py:reshape"%string, ["LtE: len(v3) ; 1"%string;
+      "call _same_shape: v2 ; v3"%string]);
+  ("_constant_folding.py:shape"%string, ["isinstance: v6 ; int"%string]);
+  ("_constant_folding.py:size"%string, ["isinstance: v3 ; int"%string]);
+  ("_constant_folding.py:identity"%string, ["call _merge_shapes: v0.shape ; v1.shape"%string]);
+  ("_constant_folding.py:sequence_construct"%string, []);
+  ("_constant_folding.py:concat"%string, ["Eq: 1 ; len(v0)"%string;
+      "Eq: 0 ; v1_1"%string;
+      "NotEq: len(v0_1) ; len(v1_1)"%string;
+      "LtE,Lt: -v2_1 ; v1 ; v2_1"%string;
+      "Eq: v1 % v2_1 ; v3_1"%string;
+      "isinstance: v4_1 ; int"%string;
+      "isinstance: v5_1 ; int"%string;
+      "NotEq: v4_1 ; v5_1"%string;
+      "NotEq: v4_1.value ; v5_1.value"%string;
+      "In: False ; v2"%string;
+      "Eq: v4 ; v7"%string;
+      "NotEq: len(v0) ; len(v6)"%string;
+      "Eq: 1 ; len(v6)"%string;
+      "NotEq: 0 ; v1"%string]);
+  ("_constant_folding.py:expand"%string, ["NotEq: 2 ; len(p0.inputs)"%string;
+      "call _same_shape: v1 ; v3"%string;
+      "NotEq: 1 ; v2.ndim"%string;
+      "Eq: tuple(v2.tolist()) ; v1.dims"%string]);
+  ("_constant_folding.py:concat_from_sequence"%string, ["Eq: 0 ; v3"%string;
+      "Eq: 1 ; v3"%string]);
+  ("_constant_folding.py:split_to_sequence"%string, ["Eq: 1 ; len(p0.inputs)"%string;
+      "Lt: v3 ; 0"%string;
+      "Lt: v3 ; 0"%string;
+      "GtE: v3 ; v5"%string;
+      "call is_static:  @v1.shape"%string;
+      "Eq: 1 ; len(v7)"%string;
+      "isinstance: v8 ; int"%string;
+      "Eq: 1 ; v6.ndim"%string;
+      "Eq: 0 ; v6.ndim"%string;
+      "isinstance: v8 ; int"%string;
+      "LtE: v13 ; 0"%string;
+      "LtE: v8 ; 0"%string;
+      "NotEq: 0 ; v8 % v13"%string;
+      "Eq: 0 ; v16"%string]);
+  ("_constant_folding.py:sequence_at"%string, ["NotEq: 1 ; v4.size"%string]);
+  ("_constant_folding.py:_merge_shapes"%string, ["Eq: p0_1 ; p1_1"%string;
+      "isinstance: p0_1 ; ir.SymbolicDim"%string;
+      "isinstance: p1_1 ; ir.SymbolicDim"%string;
+      "NotEq: len(p0) ; len(p1)"%string]);
+  ("_constant_folding.py:FoldConstantsPass"%string, ["In: v7.name ; v0"%string;
+      "call _merge_shapes: v7.shape ; v9"%string;
+      "In: p2.dtype.kind ; ('O', 'S', 'U')"%string;
+      "Gt: p2.size ; self.output_size_limit"%string;
+      "Eq: 1 ; len(v2.uses())"%string;
+      "Gt: p2.size - v1 ; 0"%string;
+      "Eq: 'Constant' ; p0.op_type"%string;
+      "NotIn: p0.domain ; self._opset_imports"%string;
+      "Eq: 'Constant' ; p0.op_type"%string;
+      "In: p0.op_type ; _NON_DETERMINISTIC_OPS"%string;
+      "Is: False ; v11"%string;
+      "Eq: p0.op_type ; v12"%string;
+      "Gt: v15.size ; self.input_size_limit"%string;
+      "Eq: len(p0.inputs) ; len(v14)"%string;
+      "In: (p0.domain, p0.op_type) ; _DEFAULT_ALWAYS_FOLD_OPS"%string;
+      "Eq: 1 ; len(v16.consumers())"%string;
+      "Eq: ir.AttributeType.TENSOR ; p0_1.type"%string;
+      "Eq: 1 ; len(p0.outputs)"%string;
+      "Eq: ir.AttributeType.GRAPH ; p0.type"%string;
+      "Eq: ir.AttributeType.GRAPHS ; p0.type"%string]);
+  ("_basic_rules.py:SqueezeReshape"%string, ["call has_rank: p1 ; 1 @ir_utils"%string]);
+  ("_basic_rules.py:ExpandIdentity"%string, ["NotEq: tuple(p2.const_value.numpy().tolist()) ; v1.dims"%string]);
+  ("_basic_rules.py:ReshapeReshape"%string, ["isinstance: v4 ; int"%string;
+      "Gt: v4 ; 0"%string;
+      "Eq: 1 ; self._allowzero"%string;
+      "Eq: 0 ; self._new_shape"%string;
+      "Eq: 0 ; self._new_shape"%string;
+      "Lt: self._new_shape ; 0"%string;
+      "Gt: np.count_nonzero(self._new_shape == 0) ; 1"%string;
+      "Eq: 0 ; self._new_shape"%string;
+      "Eq: 0 ; self._new_shape"%string]);
+  ("_basic_rules.py:SlicesSplit"%string, ["NotEq: p4.const_value.numpy().tolist() ; p7.const_value.numpy().tolist()"%string;
+      "NotEq: 1 ; len(v1)"%string;
+      "NotEq: -1 ; v1[0]"%string;
+      "NotEq: v1[0] ; v2 - 1"%string;
+      "NotEq: [0] ; p2.const_value.numpy().tolist()"%string;
+      "NotEq: v3[0] ; v4[0]"%string;
+      "isinstance: v7 ; int"%string;
+      "NotEq: v5[0] ; v7"%string;
+      "NotEq: v4[0] ; v7 // 2"%string;
+      "LtE: v7 ; 0"%string;
+      "NotEq: 0 ; v7 % 2"%string;
+      "Lt: p0.graph_or_function.opset_imports.get('', 0) ; 18"%string]);
+  ("_basic_rules.py:Flatten2Reshape"%string, ["Lt: v1 ; 0"%string;
+      "Eq: 0 ; v1"%string;
+      "Eq: 1 ; v1"%string;
+      "Eq: v1 ; v2"%string;
+      "isinstance: v6 ; int"%string;
+      "isinstance: v6 ; int"%string;
+      "isinstance: v6 ; int"%string;
+      "Gt: np.count_nonzero(self._new_shape == -1) ; 1"%string;
+      "Eq: -1 ; self._new_shape"%string;
+      "isinstance: v6 ; int"%string;
+      "Eq: 0 ; v6"%string]);
+  ("_collapse_slices.py:_check_if_redundant_slice"%string, ["NotEq: 1 ; v0.numpy().size"%string;
+      "NotEq: 1 ; v1.numpy().size"%string;
+      "NotEq: 1 ; v2.numpy().size"%string;
+      "NotEq: 1 ; v3.numpy().size"%string;
+      "NotEq: 1 ; v3.numpy().item()"%string;
+      "NotEq: 0 ; v0.numpy().item()"%string;
+      "Eq: _INT64_MAX ; v1.numpy().item()"%string;
+      "call is_dynamic: v2.numpy().item() @p1.shape"%string;
+      "Lt: v1.numpy().item() ; p1.shape[v2.numpy().item()]"%string]);
+  ("_collapse_slices.py:_same_shape"%string, ["Eq: 1 ; v1"%string;
+      "call same_shape: p1.shape ; p2.shape @_ir_utils"%string]);
+  ("_materialize_reshape_shape.py:MaterializeReshapeShape"%string, ["isinstance: v4 ; int"%string;
+      "Eq: 1 ; v3"%string;
+      "isinstance: v4 ; int"%string;
+      "Eq: 0 ; v4"%string;
+      "LtE: v3 ; 1"%string;
+      "isinstance: v4 ; int"%string]);
+  ("_remove_expand_before_binary_op.py:_known_equal"%string, ["isinstance: p0 ; ir.SymbolicDim"%string;
+      "isinstance: p1 ; ir.SymbolicDim"%string;
+      "Eq: p0 ; p1"%string]);
+  ("_remove_expand_before_binary_op.py:_compute_broadcast_shape"%string, ["GtE: v5 ; 0"%string;
+      "GtE: v7 ; 0"%string]);
+  ("_remove_expand_before_binary_op.py:_check_dims_sufficient"%string, ["Gt: v1 ; max(v2, v3)"%string;
+      "isinstance: v6 ; int"%string;
+      "Eq: 1 ; v6"%string;
+      "GtE: v7 ; 0"%string;
+      "call _known_equal: v8 ; v6"%string;
+      "GtE: v9 ; 0"%string;
+      "call _known_equal: v10 ; v6"%string]);
+  ("_remove_expand_before_binary_op.py:_check_expand_removable"%string, ["Gt: v8 ; max(v3, v4)"%string;
+      "Eq: 1 ; v11"%string;
+      "GtE: v12 ; 0"%string;
+      "isinstance: v13 ; int"%string;
+      "Eq: v11 ; v13"%string;
+      "GtE: v14 ; 0"%string;
+      "isinstance: v15 ; int"%string;
+      "Eq: v11 ; v15"%string;
+      "Eq: len(v17) ; v16.rank()"%string;
+      "call _known_equal: v18 ; v19"%string]);
+  ("_redundant_scatter_nd.py:ScatterAllDynamic"%string, ["isinstance: v1 ; int"%string;
+      "Eq: 'Shape' ; v2.op_type"%string;
+      "In: 'end' ; v2.attributes"%string;
+      "call same_dim: v4 ; v5[0] @_ir_utils"%string]);
+  ("_redundant_scatter_nd.py:ScatterAllStatic"%string, ["NotEq: 'none' ; p0.root.attributes.get_string('reduction', 'none')"%string;
+      "Eq: 0 ; len(p1.shape)"%string;
+      "isinstance: p1.shape[0] ; int"%string;
+      "call same_shape: p1.shape ; p3.shape @_ir_utils"%string;
+      "NotEq: p2.const_value.numpy().tolist() ; v1"%string]);
+  ("_broadcast_to_matmul.py:check_if_not_need_reshape"%string, ["NotEq: 1 ; len(v2.shape)"%string;
+      "isinstance: v3 ; ir.SymbolicDim"%string;
+      "isinstance: v3 ; ir.SymbolicDim"%string;
+      "Eq: 0 ; v4"%string;
+      "Eq: 0 ; v5"%string;
+      "Lt: v4 ; 2"%string;
+      "Lt: v5 ; 2"%string;
+      "NotEq: v0[-1] ; v1[-2]"%string;
+      "Lt: v5 ; 2"%string;
+      "NotEq: v0[-1] ; v1[-1]"%string;
+      "Eq: 0 ; v11"%string;
+      "NotEq: v12 ; v13"%string;
+      "NotIn: v12 ; {1, v13}"%string;
+      "Gt: v11 ; 0"%string;
+      "Gt: v4 ; v5"%string;
+      "Eq: 2 ; v5"%string;
+      "Eq: 1 ; v1[-1]"%string;
+      "Eq: 2 ; v4"%string;
+      "Eq: 1 ; v0[0]"%string;
+      "NotEq: p3 ; v10"%string]);
+  ("_ir_utils.py:has_rank"%string, ["Eq: p1 ; v0.rank()"%string]);
+  ("_ir_utils.py:broadcast_keeps_rank"%string, ["LtE: v0 ; 1"%string;
+      "LtE: v0 ; p1.shape.rank()"%string]);
+  ("_ir_utils.py:get_dim"%string, ["Lt: p1 ; 0"%string;
+      "Lt: p1 ; 0"%string;
+      "GtE: p1 ; v0.rank()"%string]);
+  ("_ir_utils.py:same_shape"%string, ["call has_unknown_dim:  @p0"%string;
+      "call has_unknown_dim:  @p1"%string;
+      "Eq: p0 ; p1"%string]);
+  ("_ir_utils.py:same_dim"%string, ["IsNot: type(p0) ; type(p1)"%string;
+      "isinstance: p0 ; int"%string;
+      "isinstance: p1 ; int"%string;
+      "Eq: p0 ; p1"%string;
+      "isinstance: p0 ; ir.SymbolicDim"%string;
+      "isinstance: p1 ; ir.SymbolicDim"%string;
+      "Eq: p0.value ; p1.value"%string])
 ].
 
 (* (unit, comparison, kind assumed by the models, theorem) *)
 Definition dim_sites : list (string * string * cmp_kind * string) := [
-  ("_redundant_scatter_nd.py:ScatterAllDynamic", "call same_dim: updated_dim_value ; actual_dim_value @_ir_utils", KSameDim, "C09_scatter_dyn_sound");
-  ("_redundant_scatter_nd.py:ScatterAllStatic", "call same_shape: data.shape ; updates.shape @_ir_utils", KSameShape, "C09_scatter_static_sound");
-  ("_redundant_scatter_nd.py:ScatterAllStatic", "isinstance: data.shape[0] ; int", KIntGuard, "C09_scatter_static_sound");
-  ("_collapse_slices.py:_same_shape", "call same_shape: data.shape ; slice_output.shape @_ir_utils", KSameShape, "C09_iu_same_shape_sound");
-  ("_collapse_slices.py:_check_if_redundant_slice", "call is_dynamic: axes_const.numpy().item() @data.shape", KStaticGuard, "C09_collapse_slice1_sound");
-  ("_collapse_slices.py:_check_if_redundant_slice", "Lt: ends_const.numpy().item() ; data.shape[axes_const.numpy().item()]", KPyCmpInts, "C09_collapse_slice1_sound");
-  ("_constant_folding.py:reshape", "call _same_shape: input_shape ; shape_value", KSameShape, "C09_reshape_identity_sound");
-  ("_constant_folding.py:expand", "call _same_shape: input_shape ; expanded_sym_shape", KSameShape, "C09_expand_identity_sound");
-  ("_constant_folding.py:expand", "Eq: input_shape.dims ; tuple(expanded_shape.tolist())", KPyEqDimsAgainstInts, "C09_expand_identity_const_sound");
-  ("_constant_folding.py:_same_shape", "isinstance: dim ; ir.SymbolicDim", KUnknownGuard, "C09_cf_same_shape_sound");
-  ("_constant_folding.py:_same_shape", "Eq: shape1.dims ; shape2.dims", KPyEqDimsGuarded, "C09_cf_same_shape_sound");
-  ("_constant_folding.py:identity", "call _merge_shapes: input.shape ; output.shape", KMerge, "C09_merge_shapes_sound");
-  ("_constant_folding.py:_merge_shapes", "Eq: dim1 ; dim2", KPyEqDimsMergeOnly, "C09_merge_shapes_sound");
-  ("_constant_folding.py:_merge_shapes", "isinstance: dim1 ; ir.SymbolicDim", KIntGuard, "C09_merge_dims_keeps_int");
-  ("_constant_folding.py:_merge_shapes", "isinstance: dim2 ; ir.SymbolicDim", KIntGuard, "C09_merge_dims_keeps_int");
-  ("_constant_folding.py:concat", "Eq: dim_size ; 0", KPyEqDimsAgainstInts, "C09_concat_drop_shape_sound");
-  ("_constant_folding.py:concat", "isinstance: dim ; int", KIntGuard, "C09_concat_drop_fixed_accepts_exactly");
-  ("_constant_folding.py:concat", "isinstance: ref_dim ; int", KIntGuard, "C09_concat_drop_fixed_accepts_exactly");
-  ("_constant_folding.py:concat", "NotEq: dim ; ref_dim", KPyCmpInts, "C09_concat_drop_fixed_accepts_exactly");
-  ("_constant_folding.py:concat", "NotEq: dim.value ; ref_dim.value", KNameEqGuarded, "C09_keq_except_sound");
-  ("_constant_folding.py:size", "isinstance: d ; int", KIntGuard, "C09_size_fold_static_iff");
-  ("_constant_folding.py:shape", "isinstance: d ; int", KIntGuard, "C09_shape_value_constant_fold_sound");
-  ("_constant_folding.py:gather", "isinstance: d ; int", KIntGuard, "C09_shape_value_constant_fold_sound");
-  ("_constant_folding.py:abs", "isinstance: d ; int", KIntGuard, "C09_abs_identity_sound");
-  ("_constant_folding.py:abs", "Lt: d ; 0", KPyCmpInts, "C09_abs_identity_sound");
-  ("_constant_folding.py:add", "isinstance: dim0 ; int", KIntGuard, "C09_shape_value_nonneg");
-  ("_constant_folding.py:add", "Lt: dim0 ; 0", KPyCmpInts, "C09_shape_value_nonneg");
-  ("_constant_folding.py:add", "Lt: dim1 ; 0", KPyCmpInts, "C09_shape_value_nonneg");
-  ("_constant_folding.py:split_to_sequence", "call is_static:  @split.shape", KStaticGuard, "C09_static_shape_valuation_independent");
-  ("_constant_folding.py:split_to_sequence", "isinstance: split_dimension_size ; int", KIntGuard, "C09_split_scalar_sound");
-  ("_constant_folding.py:split_to_sequence", "LtE: split_size ; 0", KPyCmpInts, "C09_split_scalar_emitted_accepts_iff");
-  ("_constant_folding.py:split_to_sequence", "NotEq: split_dimension_size % split_size ; 0", KPyCmpInts, "C09_split_scalar_emitted_accepts_iff");
-  ("_constant_folding.py:split_to_sequence", "Eq: keepdims ; 0", KPyCmpInts, "C09_split_vector_keepdims0_refuted");
-  ("_constant_folding.py:sequence_at", "NotEq: position_val.size ; 1", KPyCmpInts, "C09_seq_at_accepts_iff");
-  ("_basic_rules.py:SqueezeReshape", "call has_rank: x ; 1 @ir_utils", KRank, "C09_squeeze_reshape_1d_sound");
-  ("_basic_rules.py:ExpandIdentity", "NotEq: x_shape.dims ; tuple(shape.const_value.numpy().tolist())", KPyEqDimsAgainstInts, "C09_expand_identity_const_sound");
-  ("_basic_rules.py:ReshapeReshape", "isinstance: dim ; int", KIntGuard, "C09_reshape_reshape_annotated_sound");
-  ("_basic_rules.py:ReshapeReshape", "Gt: dim ; 0", KPyCmpInts, "C09_reshape_reshape_annotated_sound");
-  ("_basic_rules.py:ReshapeReshape", "Eq: self._allowzero ; 1", KPyCmpInts, "C09_reshape_reshape_accepts_iff");
-  ("_basic_rules.py:ReshapeReshape", "Lt: self._new_shape ; 0", KPyCmpInts, "C09_reshape_reshape_zero_copy_exact");
-  ("_basic_rules.py:ReshapeReshape", "Gt: np.count_nonzero(self._new_shape == 0) ; 1", KPyCmpInts, "C09_reshape_reshape_zero_copy_exact");
-  ("_basic_rules.py:SlicesSplit", "isinstance: last_dim ; int", KIntGuard, "C09_slices_split_sound");
-  ("_basic_rules.py:SlicesSplit", "NotEq: last_dim ; e1[0]", KPyCmpInts, "C09_slices_split_sound");
-  ("_basic_rules.py:SlicesSplit", "NotEq: last_dim // 2 ; b1[0]", KPyCmpInts, "C09_slices_split_last_dim_necessary");
-  ("_basic_rules.py:SlicesSplit", "LtE: last_dim ; 0", KPyCmpInts, "C09_slices_split_accepts_iff");
-  ("_basic_rules.py:SlicesSplit", "NotEq: last_dim % 2 ; 0", KPyCmpInts, "C09_slices_split_sound");
-  ("_basic_rules.py:SlicesSplit", "NotEq: axes[0] ; rank - 1", KRank, "C09_slices_split_accepts_iff");
-  ("_basic_rules.py:Flatten2Reshape", "Eq: dim ; 0", KPyCmpInts, "C09_flatten_target_correct_iff");
-  ("_basic_rules.py:Flatten2Reshape", "Eq: axis ; input_rank", KRank, "C09_flatten_target_correct_iff");
-  ("_materialize_reshape_shape.py:MaterializeReshapeShape", "isinstance: d ; int", KIntGuard, "C09_materialize_reshape_sound");
-  ("_materialize_reshape_shape.py:MaterializeReshapeShape", "Eq: d ; 0", KPyCmpInts, "C09_materialize_reshape_sound");
-  ("_materialize_reshape_shape.py:MaterializeReshapeShape", "LtE: sym_count ; 1", KPyCmpInts, "C09_materialize_reshape_sound");
-  ("_remove_expand_before_binary_op.py:_known_equal", "isinstance: d1 ; ir.SymbolicDim", KUnknownGuard, "C09_expand_binop_shape_sound");
-  ("_remove_expand_before_binary_op.py:_known_equal", "isinstance: d2 ; ir.SymbolicDim", KUnknownGuard, "C09_expand_binop_shape_sound");
-  ("_remove_expand_before_binary_op.py:_known_equal", "Eq: d1 ; d2", KPyEqDimsGuarded, "C09_expand_binop_shape_sound");
-  ("_remove_expand_before_binary_op.py:_check_dims_sufficient", "call _known_equal: x_d ; e_d", KKnownEqual, "C09_expand_binop_s2_sound");
-  ("_remove_expand_before_binary_op.py:_check_dims_sufficient", "call _known_equal: y_d ; e_d", KKnownEqual, "C09_expand_binop_s2_sound");
-  ("_remove_expand_before_binary_op.py:_check_dims_sufficient", "Gt: e_rank ; max(x_rank, y_rank)", KRank, "C09_expand_binop_s2_sound");
-  ("_remove_expand_before_binary_op.py:_check_expand_removable", "Gt: expand_rank ; max(x_rank, y_rank)", KRank, "C09_expand_binop_s1_sound");
-  ("_remove_expand_before_binary_op.py:_check_expand_removable", "isinstance: x_d ; int", KIntGuard, "C09_expand_binop_s1_sound");
-  ("_remove_expand_before_binary_op.py:_check_expand_removable", "Eq: x_d ; e_d", KPyCmpInts, "C09_expand_binop_s1_sound");
-  ("_remove_expand_before_binary_op.py:_check_expand_removable", "isinstance: y_d ; int", KIntGuard, "C09_expand_binop_s1_sound");
-  ("_remove_expand_before_binary_op.py:_check_expand_removable", "Eq: y_d ; e_d", KPyCmpInts, "C09_expand_binop_s1_sound");
-  ("_remove_expand_before_binary_op.py:_check_expand_removable", "call _known_equal: c ; a", KKnownEqual, "C09_expand_binop_s3_sound");
-  ("_broadcast_to_matmul.py:check_if_not_need_reshape", "isinstance: dim ; ir.SymbolicDim", KStaticGuard, "C09_b2m_guard_static");
-  ("_broadcast_to_matmul.py:check_if_not_need_reshape", "NotEq: input_a_shape[-1] ; input_b_shape[-2]", KPyCmpInts, "C09_b2m_check_sound");
-  ("_broadcast_to_matmul.py:check_if_not_need_reshape", "NotIn: dim_from_a ; {1, dim_from_b}", KPyCmpInts, "C09_b2m_check_sound");
-  ("_broadcast_to_matmul.py:check_if_not_need_reshape", "NotEq: shape_c ; broadcast_matmul_output_shape", KPyCmpInts, "C09_b2m_check_sound");
-  ("_ir_utils.py:has_rank", "Eq: shape.rank() ; rank", KRank, "C09_rank_valuation_independent");
-  ("_ir_utils.py:broadcast_keeps_rank", "LtE: rank ; reference.shape.rank()", KRank, "C09_broadcast_keeps_rank_sound");
-  ("_ir_utils.py:same_shape", "call has_unknown_dim:  @shape1", KUnknownGuard, "C09_iu_same_shape_sound");
-  ("_ir_utils.py:same_shape", "call has_unknown_dim:  @shape2", KUnknownGuard, "C09_iu_same_shape_sound");
-  ("_ir_utils.py:same_shape", "Eq: shape1 ; shape2", KPyEqDimsGuarded, "C09_iu_same_shape_sound");
-  ("_ir_utils.py:same_dim", "IsNot: type(dim1) ; type(dim2)", KIntGuard, "C09_same_dim_sound");
-  ("_ir_utils.py:same_dim", "Eq: dim1 ; dim2", KPyCmpInts, "C09_same_dim_sound");
-  ("_ir_utils.py:same_dim", "Eq: dim1.value ; dim2.value", KNameEqGuarded, "C09_same_dim_sound");
-  ("_ir_utils.py:same_dim", "isinstance: dim1 ; ir.SymbolicDim", KUnknownGuard, "C09_same_dim_sound")
+  ("_redundant_scatter_nd.py:ScatterAllDynamic"%string, "call same_dim: v4 ; v5[0] @_ir_utils"%string, KSameDim, "C09_scatter_dyn_sound"%string);
+  ("_redundant_scatter_nd.py:ScatterAllStatic"%string, "call same_shape: p1.shape ; p3.shape @_ir_utils"%string, KSameShape, "C09_scatter_static_sound"%string);
+  ("_redundant_scatter_nd.py:ScatterAllStatic"%string, "isinstance: p1.shape[0] ; int"%string, KIntGuard, "C09_scatter_static_sound"%string);
+  ("_collapse_slices.py:_same_shape"%string, "call same_shape: p1.shape ; p2.shape @_ir_utils"%string, KSameShape, "C09_iu_same_shape_sound"%string);
+  ("_collapse_slices.py:_check_if_redundant_slice"%string, "call is_dynamic: v2.numpy().item() @p1.shape"%string, KStaticGuard, "C09_collapse_slice1_sound"%string);
+  ("_collapse_slices.py:_check_if_redundant_slice"%string, "Lt: v1.numpy().item() ; p1.shape[v2.numpy().item()]"%string, KPyCmpInts, "C09_collapse_slice1_sound"%string);
+  ("_constant_folding.py:reshape"%string, "call _same_shape: v2 ; v3"%string, KSameShape, "C09_reshape_identity_sound"%string);
+  ("_constant_folding.py:expand"%string, "call _same_shape: v1 ; v3"%string, KSameShape, "C09_expand_identity_sound"%string);
+  ("_constant_folding.py:expand"%string, "Eq: tuple(v2.tolist()) ; v1.dims"%string, KPyEqDimsAgainstInts, "C09_expand_identity_const_sound"%string);
+  ("_constant_folding.py:_same_shape"%string, "isinstance: v0 ; ir.SymbolicDim"%string, KUnknownGuard, "C09_cf_same_shape_sound"%string);
+  ("_constant_folding.py:_same_shape"%string, "Eq: p0.dims ; p1.dims"%string, KPyEqDimsGuarded, "C09_cf_same_shape_sound"%string);
+  ("_constant_folding.py:identity"%string, "call _merge_shapes: v0.shape ; v1.shape"%string, KMerge, "C09_merge_shapes_sound"%string);
+  ("_constant_folding.py:_merge_shapes"%string, "Eq: p0_1 ; p1_1"%string, KPyEqDimsMergeOnly, "C09_merge_shapes_sound"%string);
+  ("_constant_folding.py:_merge_shapes"%string, "isinstance: p0_1 ; ir.SymbolicDim"%string, KIntGuard, "C09_merge_dims_keeps_int"%string);
+  ("_constant_folding.py:_merge_shapes"%string, "isinstance: p1_1 ; ir.SymbolicDim"%string, KIntGuard, "C09_merge_dims_keeps_int"%string);
+  ("_constant_folding.py:concat"%string, "Eq: 0 ; v1_1"%string, KPyEqDimsAgainstInts, "C09_concat_drop_shape_sound"%string);
+  ("_constant_folding.py:concat"%string, "isinstance: v4_1 ; int"%string, KIntGuard, "C09_concat_drop_fixed_accepts_exactly"%string);
+  ("_constant_folding.py:concat"%string, "isinstance: v5_1 ; int"%string, KIntGuard, "C09_concat_drop_fixed_accepts_exactly"%string);
+  ("_constant_folding.py:concat"%string, "NotEq: v4_1 ; v5_1"%string, KPyCmpInts, "C09_concat_drop_fixed_accepts_exactly"%string);
+  ("_constant_folding.py:concat"%string, "NotEq: v4_1.value ; v5_1.value"%string, KNameEqGuarded, "C09_keq_except_sound"%string);
+  ("_constant_folding.py:size"%string, "isinstance: v3 ; int"%string, KIntGuard, "C09_size_fold_static_iff"%string);
+  ("_constant_folding.py:shape"%string, "isinstance: v6 ; int"%string, KIntGuard, "C09_shape_value_constant_fold_sound"%string);
+  ("_constant_folding.py:gather"%string, "isinstance: v7 ; int"%string, KIntGuard, "C09_shape_value_constant_fold_sound"%string);
+  ("_constant_folding.py:abs"%string, "isinstance: v2 ; int"%string, KIntGuard, "C09_abs_identity_sound"%string);
+  ("_constant_folding.py:abs"%string, "Lt: v2 ; 0"%string, KPyCmpInts, "C09_abs_identity_sound"%string);
+  ("_constant_folding.py:add"%string, "isinstance: v0 ; int"%string, KIntGuard, "C09_shape_value_nonneg"%string);
+  ("_constant_folding.py:add"%string, "Lt: v0 ; 0"%string, KPyCmpInts, "C09_shape_value_nonneg"%string);
+  ("_constant_folding.py:add"%string, "Lt: v1 ; 0"%string, KPyCmpInts, "C09_shape_value_nonneg"%string);
+  ("_constant_folding.py:split_to_sequence"%string, "call is_static:  @v1.shape"%string, KStaticGuard, "C09_static_shape_valuation_independent"%string);
+  ("_constant_folding.py:split_to_sequence"%string, "isinstance: v8 ; int"%string, KIntGuard, "C09_split_scalar_sound"%string);
+  ("_constant_folding.py:split_to_sequence"%string, "LtE: v13 ; 0"%string, KPyCmpInts, "C09_split_scalar_emitted_accepts_iff"%string);
+  ("_constant_folding.py:split_to_sequence"%string, "NotEq: 0 ; v8 % v13"%string, KPyCmpInts, "C09_split_scalar_emitted_accepts_iff"%string);
+  ("_constant_folding.py:split_to_sequence"%string, "Eq: 0 ; v16"%string, KPyCmpInts, "C09_split_vector_keepdims0_refuted"%string);
+  ("_constant_folding.py:sequence_at"%string, "NotEq: 1 ; v4.size"%string, KPyCmpInts, "C09_seq_at_accepts_iff"%string);
+  ("_basic_rules.py:SqueezeReshape"%string, "call has_rank: p1 ; 1 @ir_utils"%string, KRank, "C09_squeeze_reshape_1d_sound"%string);
+  ("_basic_rules.py:ExpandIdentity"%string, "NotEq: tuple(p2.const_value.numpy().tolist()) ; v1.dims"%string, KPyEqDimsAgainstInts, "C09_expand_identity_const_sound"%string);
+  ("_basic_rules.py:ReshapeReshape"%string, "isinstance: v4 ; int"%string, KIntGuard, "C09_reshape_reshape_annotated_sound"%string);
+  ("_basic_rules.py:ReshapeReshape"%string, "Gt: v4 ; 0"%string, KPyCmpInts, "C09_reshape_reshape_annotated_sound"%string);
+  ("_basic_rules.py:ReshapeReshape"%string, "Eq: 1 ; self._allowzero"%string, KPyCmpInts, "C09_reshape_reshape_accepts_iff"%string);
+  ("_basic_rules.py:ReshapeReshape"%string, "Lt: self._new_shape ; 0"%string, KPyCmpInts, "C09_reshape_reshape_zero_copy_exact"%string);
+  ("_basic_rules.py:ReshapeReshape"%string, "Gt: np.count_nonzero(self._new_shape == 0) ; 1"%string, KPyCmpInts, "C09_reshape_reshape_zero_copy_exact"%string);
+  ("_basic_rules.py:SlicesSplit"%string, "isinstance: v7 ; int"%string, KIntGuard, "C09_slices_split_sound"%string);
+  ("_basic_rules.py:SlicesSplit"%string, "NotEq: v5[0] ; v7"%string, KPyCmpInts, "C09_slices_split_sound"%string);
+  ("_basic_rules.py:SlicesSplit"%string, "NotEq: v4[0] ; v7 // 2"%string, KPyCmpInts, "C09_slices_split_last_dim_necessary"%string);
+  ("_basic_rules.py:SlicesSplit"%string, "LtE: v7 ; 0"%string, KPyCmpInts, "C09_slices_split_accepts_iff"%string);
+  ("_basic_rules.py:SlicesSplit"%string, "NotEq: 0 ; v7 % 2"%string, KPyCmpInts, "C09_slices_split_sound"%string);
+  ("_basic_rules.py:SlicesSplit"%string, "NotEq: v1[0] ; v2 - 1"%string, KRank, "C09_slices_split_accepts_iff"%string);
+  ("_basic_rules.py:Flatten2Reshape"%string, "Eq: 0 ; v6"%string, KPyCmpInts, "C09_flatten_target_correct_iff"%string);
+  ("_basic_rules.py:Flatten2Reshape"%string, "Eq: v1 ; v2"%string, KRank, "C09_flatten_target_correct_iff"%string);
+  ("_materialize_reshape_shape.py:MaterializeReshapeShape"%string, "isinstance: v4 ; int"%string, KIntGuard, "C09_materialize_reshape_sound"%string);
+  ("_materialize_reshape_shape.py:MaterializeReshapeShape"%string, "Eq: 0 ; v4"%string, KPyCmpInts, "C09_materialize_reshape_sound"%string);
+  ("_materialize_reshape_shape.py:MaterializeReshapeShape"%string, "LtE: v3 ; 1"%string, KPyCmpInts, "C09_materialize_reshape_sound"%string);
+  ("_remove_expand_before_binary_op.py:_known_equal"%string, "isinstance: p0 ; ir.SymbolicDim"%string, KUnknownGuard, "C09_expand_binop_shape_sound"%string);
+  ("_remove_expand_before_binary_op.py:_known_equal"%string, "isinstance: p1 ; ir.SymbolicDim"%string, KUnknownGuard, "C09_expand_binop_shape_sound"%string);
+  ("_remove_expand_before_binary_op.py:_known_equal"%string, "Eq: p0 ; p1"%string, KPyEqDimsGuarded, "C09_expand_binop_shape_sound"%string);
+  ("_remove_expand_before_binary_op.py:_check_dims_sufficient"%string, "call _known_equal: v8 ; v6"%string, KKnownEqual, "C09_expand_binop_s2_sound"%string);
+  ("_remove_expand_before_binary_op.py:_check_dims_sufficient"%string, "call _known_equal: v10 ; v6"%string, KKnownEqual, "C09_expand_binop_s2_sound"%string);
+  ("_remove_expand_before_binary_op.py:_check_dims_sufficient"%string, "Gt: v1 ; max(v2, v3)"%string, KRank, "C09_expand_binop_s2_sound"%string);
+  ("_remove_expand_before_binary_op.py:_check_expand_removable"%string, "Gt: v8 ; max(v3, v4)"%string, KRank, "C09_expand_binop_s1_sound"%string);
+  ("_remove_expand_before_binary_op.py:_check_expand_removable"%string, "isinstance: v13 ; int"%string, KIntGuard, "C09_expand_binop_s1_sound"%string);
+  ("_remove_expand_before_binary_op.py:_check_expand_removable"%string, "Eq: v11 ; v13"%string, KPyCmpInts, "C09_expand_binop_s1_sound"%string);
+  ("_remove_expand_before_binary_op.py:_check_expand_removable"%string, "isinstance: v15 ; int"%string, KIntGuard, "C09_expand_binop_s1_sound"%string);
+  ("_remove_expand_before_binary_op.py:_check_expand_removable"%string, "Eq: v11 ; v15"%string, KPyCmpInts, "C09_expand_binop_s1_sound"%string);
+  ("_remove_expand_before_binary_op.py:_check_expand_removable"%string, "call _known_equal: v18 ; v19"%string, KKnownEqual, "C09_expand_binop_s3_sound"%string);
+  ("_broadcast_to_matmul.py:check_if_not_need_reshape"%string, "isinstance: v3 ; ir.SymbolicDim"%string, KStaticGuard, "C09_b2m_guard_static"%string);
+  ("_broadcast_to_matmul.py:check_if_not_need_reshape"%string, "NotEq: v0[-1] ; v1[-2]"%string, KPyCmpInts, "C09_b2m_check_sound"%string);
+  ("_broadcast_to_matmul.py:check_if_not_need_reshape"%string, "NotIn: v12 ; {1, v13}"%string, KPyCmpInts, "C09_b2m_check_sound"%string);
+  ("_broadcast_to_matmul.py:check_if_not_need_reshape"%string, "NotEq: p3 ; v10"%string, KPyCmpInts, "C09_b2m_check_sound"%string);
+  ("_ir_utils.py:has_rank"%string, "Eq: p1 ; v0.rank()"%string, KRank, "C09_rank_valuation_independent"%string);
+  ("_ir_utils.py:broadcast_keeps_rank"%string, "LtE: v0 ; p1.shape.rank()"%string, KRank, "C09_broadcast_keeps_rank_sound"%string);
+  ("_ir_utils.py:same_shape"%string, "call has_unknown_dim:  @p0"%string, KUnknownGuard, "C09_iu_same_shape_sound"%string);
+  ("_ir_utils.py:same_shape"%string, "call has_unknown_dim:  @p1"%string, KUnknownGuard, "C09_iu_same_shape_sound"%string);
+  ("_ir_utils.py:same_shape"%string, "Eq: p0 ; p1"%string, KPyEqDimsGuarded, "C09_iu_same_shape_sound"%string);
+  ("_ir_utils.py:same_dim"%string, "IsNot: type(p0) ; type(p1)"%string, KIntGuard, "C09_same_dim_sound"%string);
+  ("_ir_utils.py:same_dim"%string, "Eq: p0 ; p1"%string, KPyCmpInts, "C09_same_dim_sound"%string);
+  ("_ir_utils.py:same_dim"%string, "Eq: p0.value ; p1.value"%string, KNameEqGuarded, "C09_same_dim_sound"%string);
+  ("_ir_utils.py:same_dim"%string, "isinstance: p0 ; ir.SymbolicDim"%string, KUnknownGuard, "C09_same_dim_sound"%string)
 ].
 
 Fixpoint lookup (k : string) (t : list (string * list string)) : option (list string) :=
   match t with [] => None | (k', v) :: t' => if String.eqb k k' then Some v else lookup k t' end.
 Fixpoint list_eqb (a b : list string) : bool :=
   match a, b with [] , [] => true | x :: a', y :: b' => String.eqb x y && list_eqb a' b' | _, _ => false end.
-(* units with a known repaired variant (a proposed patch that the models follow: see the variant probes of the harness):
-   the comparison list of the patched unit is accepted as well *)
+(* units repaired in /repo by a fix: commit that the models follow (see the variant probes of the harness): `expected` lists the
+   repaired unit, the comparison list of the unit as it was before the repair is accepted as well (regenerated from that commit's
+   parent with the same normal form; an added local shifts the v<i> numbering of the later ones) *)
 Definition alternatives : list (string * list string) := [
-  (* proposed_fixes/C09_split_to_sequence_empty_axis.diff: `if split_dimension_size <= 0: return None` *)
-  ("_constant_folding.py:split_to_sequence", ["Eq: len(node.inputs) ; 1";
-      "Lt: axis ; 0";
-      "Lt: axis ; 0";
-      "GtE: axis ; rank";
-      "call is_static:  @split.shape";
-      "Eq: len(split_shape) ; 1";
-      "isinstance: split_dimension_size ; int";
-      "Eq: split_value.ndim ; 1";
-      "Eq: split_value.ndim ; 0";
-      "isinstance: split_dimension_size ; int";
-      "LtE: split_size ; 0";
-      "LtE: split_dimension_size ; 0";
-      "NotEq: split_dimension_size % split_size ; 0";
-      "Eq: keepdims ; 0"]);
-  (* proposed_fixes/C09_scatter_dynamic_shape_end.diff: check() refuses a Shape node that has an `end` attribute *)
-  ("_redundant_scatter_nd.py:ScatterAllDynamic", ["isinstance: axis_value ; int";
-      "Eq: node.op_type ; 'Shape'";
-      "In: 'end' ; node.attributes";
-      "call same_dim: updated_dim_value ; actual_dim_value @_ir_utils"])
+  (* before /repo 88de348 (constant folding leaves SplitToSequence alone when the split axis is empty): no `split_dimension_size <= 0` refusal *)
+  ("_constant_folding.py:split_to_sequence"%string, ["Eq: 1 ; len(p0.inputs)"%string;
+      "Lt: v3 ; 0"%string;
+      "Lt: v3 ; 0"%string;
+      "GtE: v3 ; v5"%string;
+      "call is_static:  @v1.shape"%string;
+      "Eq: 1 ; len(v7)"%string;
+      "isinstance: v8 ; int"%string;
+      "Eq: 1 ; v6.ndim"%string;
+      "Eq: 0 ; v6.ndim"%string;
+      "isinstance: v8 ; int"%string;
+      "LtE: v13 ; 0"%string;
+      "NotEq: 0 ; v8 % v13"%string;
+      "Eq: 0 ; v16"%string]);
+  (* before /repo 9b4bde9 (ScatterAllDynamic declines when the matched Shape node has an end attribute) *)
+  ("_redundant_scatter_nd.py:ScatterAllDynamic"%string, ["isinstance: v1 ; int"%string;
+      "call same_dim: v3 ; v4[0] @_ir_utils"%string])
 ].
 Definition unit_eqb (k : string) (x y : list string) : bool :=
   list_eqb x y || match lookup k alternatives with Some z => list_eqb z y | None => false end.
